@@ -193,7 +193,7 @@ pub use arbitrary_int::*;
 '''
 
 
-def write_lib(ws, ds, skip=()):
+def write_lib(ws, ds, skip=(), crate='crate'):
     """-> {name: (first_line, last_line)}"""
     lines = LIB_HEADER.rstrip('\n').split('\n')
     spans = {}
@@ -204,8 +204,8 @@ def write_lib(ws, ds, skip=()):
         lines.append('// ---- %s' % d['name'])
         lines += decls.rust_decl(d)
         spans[d['name']] = (first, len(lines))
-    os.makedirs(ws.path('crate', 'src'), exist_ok=True)
-    open(ws.path('crate', 'src', 'lib.rs'), 'w').write('\n'.join(lines) + '\n')
+    os.makedirs(ws.path(crate, 'src'), exist_ok=True)
+    open(ws.path(crate, 'src', 'lib.rs'), 'w').write('\n'.join(lines) + '\n')
     return spans
 
 
@@ -218,11 +218,11 @@ def deps_of(d):
     return out
 
 
-def cargo_check(ws, spans):
+def cargo_check(ws, spans, crate='crate', dumps='dumps', extra=()):
     """-> ({name: [messages]}, [unattributed])"""
     with cargo_lock():
-        p = run(['cargo', 'check', '--offline', '--lib', '--message-format=json'], cwd=ws.path('crate'),
-                env={'BITBYBIT_VERIF_DUMP_DIR': ws.path('dumps'), 'CARGO_TARGET_DIR': ws.target}, check=False, timeout=3000)
+        p = run(['cargo', 'check', '--offline', '--lib', '--message-format=json'] + list(extra), cwd=ws.path(crate),
+                env={'BITBYBIT_VERIF_DUMP_DIR': ws.path(dumps), 'CARGO_TARGET_DIR': ws.target}, check=False, timeout=3000)
     errs = {}
     other = []
     for line in p.stdout.splitlines():
@@ -234,7 +234,7 @@ def cargo_check(ws, spans):
             continue
         if m.get('reason') != 'compiler-message':
             continue
-        if m.get('target', {}).get('name') != 'corpus':
+        if m.get('target', {}).get('name') not in ('corpus', 'corpusrel'):
             if m['message'].get('level') == 'error':
                 other.append({'msg': m['message'].get('message'), 'target': m.get('target', {}).get('name')})
             continue
@@ -483,7 +483,15 @@ def stage_decisions(ws, ds):
     shutil.rmtree(cdir, ignore_errors=True)
     os.makedirs(cdir)
     todo = [d for d in ds if not d.get('unstructured')]
-    src = ['From BB Require Import Bits Spec Parse Enum Builder Surface.', 'From Coq Require Import String.', 'Open Scope string_scope.', 'Open Scope N_scope.',
+    # malformed attribute strings: the model of the argument parser (Tokens.v) gives its own verdict
+    tok_todo = []
+    for d in ds:
+        if d.get('unstructured') and d['kind'] == 'bitfield' and not d.get('base_text') and len(d['fields']) == 1 \
+                and d['fields'][0].get('attr_text'):
+            t = decls.attr_tokens(d['fields'][0]['attr_text'])
+            if t is not None:
+                tok_todo.append((d, t))
+    src = ['From BB Require Import Bits Spec Parse Tokens Enum Builder Surface.', 'From Coq Require Import String.', 'Open Scope string_scope.', 'Open Scope N_scope.',
            'Set Printing Width 100000.', 'Set Printing Depth 1000000.']
     entries = []
     for d in todo:
@@ -491,6 +499,12 @@ def stage_decisions(ws, ds):
             entries.append('(let d := %s in (%s, valid_decl d, accept_decl d, offered d))' % (decls.coq_decl(d), translate.cstr(d['name'])))
         else:
             entries.append('(let e := %s in (%s, valid_enum e, enum_accept e, false))' % (decls.coq_enum(d), translate.cstr(d['name'])))
+    for d, (aname, toks) in tok_todo:
+        known = aname in ('bit', 'bits')
+        f = d['fields'][0]
+        entries.append('(%s, false, %s, false)' % (translate.cstr(d['name']),
+                       '(tokens_accepted %s %s %s)' % (decls.coq_bool(aname == 'bits'), decls.coq_bool(f.get('count') is not None), toks)
+                       if known else 'false'))
     src.append('Definition decisions := Eval vm_compute in [\n  %s].' % ';\n  '.join(entries))
     src.append('Print decisions.')
     fn = os.path.join(cdir, 'decisions.v')
@@ -499,8 +513,8 @@ def stage_decisions(ws, ds):
     res = {}
     for m in re.finditer(r'\("([^"]*)",\s*(true|false),\s*(true|false),\s*(true|false)\)', p.stdout):
         res[m.group(1)] = [m.group(2) == 'true', m.group(3) == 'true', m.group(4) == 'true']
-    if len(res) != len(todo):
-        raise RuntimeError('cannot parse decisions output (%d of %d)' % (len(res), len(todo)))
+    if len(res) != len(todo) + len(tok_todo):
+        raise RuntimeError('cannot parse decisions output (%d of %d)' % (len(res), len(todo) + len(tok_todo)))
     out = {'decisions': res, 'wall_s': time.time() - t0}
     ws.mark('decisions', out)
     return out
@@ -878,6 +892,36 @@ def enum_compare(ws, enums, xl, tier, seed):
     return {'enums': len(enums), 'conversions': nconv, 'stats': stats, 'mismatches': mism, 'n_mismatches': len(mism)}
 
 
+def release_verdicts(ws, ds, verdicts):
+    """the declarations rejected by the dev-profile build (macro compiled with overflow checks) must also be rejected
+    when the proc-macro is compiled the way `cargo build --release` compiles it (no overflow checks)
+    -> {'checked': n, 'accepted_in_release': [names]}"""
+    rej = set(verdicts['rejected'])
+    by_name = {d['name']: d for d in ds}
+    need = set()
+    for n in rej:
+        need |= deps_of(by_name[n])
+    sub = [d for d in ds if (d['name'] in rej or (d['name'] in need and d['name'] in verdicts['accepted']))]
+    if not rej:
+        return {'checked': 0, 'accepted_in_release': []}
+    shutil.rmtree(ws.path('crate_rel'), ignore_errors=True)
+    os.makedirs(ws.path('crate_rel', 'src'))
+    os.makedirs(ws.path('dumps_rel'), exist_ok=True)
+    open(ws.path('crate_rel', 'Cargo.toml'), 'w').write((CARGO_TOML % REPO).replace('name = "corpus"', 'name = "corpusrel"'))
+    shutil.copy(os.path.join(REPO, 'Cargo.lock'), ws.path('crate_rel', 'Cargo.lock'))
+    still = {}
+    for _ in range(12):
+        spans = write_lib(ws, sub, set(still), crate='crate_rel')
+        errs, other, rc, stderr = cargo_check(ws, spans, crate='crate_rel', dumps='dumps_rel', extra=['--release'])
+        errs = {k: v for k, v in errs.items()}
+        if rc == 0 or not errs:
+            break
+        still.update(errs)
+    # "corpusrel" target name differs from "corpus": cargo_check filters on the target name
+    accepted = sorted(n for n in rej if n not in still)
+    return {'checked': len(rej), 'accepted_in_release': accepted}
+
+
 def stage_extra(ws, ds, verdicts, xl, dec, api_mismatch=()):
     """crates that must fail to compile (C14, C17), const-context evaluation (C15), no_std / docs / unsafe regimes (C18)"""
     if ws.done('extra'):
@@ -892,12 +936,15 @@ def stage_extra(ws, ds, verdicts, xl, dec, api_mismatch=()):
     builders = set(d['name'] for d in ds if d['kind'] == 'bitfield' and d['name'] in acc and has_builder(xl[d['name']], d['name']))
     res = {'cfail': crates.compile_fail(P, ws, ds, acc, offered),
            'const': crates.const_crate(P, ws, ds, acc, builders, by_name, ws.seed, ws.tier),
-           'regimes': crates.regimes_crate(P, ws, ds, acc)}
+           'regimes': crates.regimes_crate(P, ws, ds, acc),
+           'release_verdicts': release_verdicts(ws, ds, verdicts)}
     res['wall_s'] = time.time() - t0
     ws.mark('extra', res)
-    log('extra: %d must-not-compile probes (%d mismatches); const: %d items, %d values (%d mismatches); regimes: %s (%d mismatches); %.1fs' % (
+    log('extra: %d must-not-compile probes (%d mismatches); const: %d items, %d values (%d mismatches); regimes: %s (%d mismatches); '
+        'release-built macro: %d rejected declarations re-checked, %d accepted; %.1fs' % (
         res['cfail']['probes'], res['cfail']['n_mismatches'], res['const']['items'], res['const']['values'], res['const']['n_mismatches'],
-        res['regimes']['regimes'], res['regimes']['n_mismatches'], res['wall_s']))
+        res['regimes']['regimes'], res['regimes']['n_mismatches'], res['release_verdicts']['checked'],
+        len(res['release_verdicts']['accepted_in_release']), res['wall_s']))
     return res
 
 
